@@ -115,6 +115,20 @@ Theorem C34_trace_inv_spaces :
   forall evs : list Q, (trace_inv_exact true evs == trace_inv_exact false (map (fun e => e + 1) evs))%Q.
 Proof. exact trace_inv_spaces. Qed.
 
+(* analytic prior term: the metric eigenvalues that are exactly one (metric_size - n_relevant_dofs of them)
+   contribute one each to Tr(Lambda^-1) *)
+Theorem C34_trace_inv_unit_eigenvalues :
+  forall (evs : list Q) (metric_size n_rel : nat),
+    (trace_inv_exact false (evs ++ repeat 1%Q (metric_size - n_rel))
+     == trace_inv_exact false evs + trace_inv_const metric_size n_rel)%Q.
+Proof. intros. apply trace_inv_units. Qed.
+
+(* a resumed eigensystem is sorted before it is truncated: the kept eigenvalues are the largest ones *)
+Theorem C34_resume_keeps_largest :
+  forall (n : nat) (evs : list Q) (x y : Q),
+    In x (resume_select n evs) -> In y (skipn n (sort_desc evs)) -> (y <= x)%Q.
+Proof. exact resume_select_largest. Qed.
+
 (* non-vacuity: a resumed and a fresh schedule (the Lanczos hypotheses are exercised with Q^n and
    generated SPD matrices by the correspondence on every check run) *)
 Example C34_batches_example : batches 7 3 4 = [1; 2]%nat /\ batches 7 3 0 = [3; 2; 2]%nat.
